@@ -79,7 +79,7 @@ func TestVerifC12Replay(t *testing.T) {
 }
 
 // c12Pool: a small set of requests built to repeat and to collide: base requests, the same
-// with other headers, from other clients, and partners whose host+method+path concatenation
+// with other headers, from other clients, with another method, and partners whose host+method+path concatenation
 // coincides ("h"+"GET" = "hG"+"ET").
 func c12Pool(r interface{ Intn(int) int }, base []vx.M, clients []vx.M) []vx.M {
 	pool := []vx.M{}
@@ -108,6 +108,13 @@ func c12Pool(r interface{ Intn(int) int }, base []vx.M, clients []vx.M) []vx.M {
 		c["ip"] = clients[r.Intn(len(clients))]
 		c["via"] = "remote"
 		pool = append(pool, c)
+		// other method (standard or not): same host and path
+		if r.Intn(3) != 0 {
+			o := clone(q)
+			ms := append(append([]string{}, rgMethods...), rgOddMethods...)
+			o["m"] = rhChars(ms[r.Intn(len(ms))])
+			pool = append(pool, o)
+		}
 		// colliding partner: move the first letter of the method to the end of the host
 		if r.Intn(2) == 0 {
 			m := vx.Chars(q["m"])
